@@ -238,7 +238,7 @@ class Section(Entity):
     @link.setter
     def link(self, id_or_sec):
         if id_or_sec is None:
-            self._h5group.delete("link")
+            self._h5group.delete("link", False)
         if isinstance(id_or_sec, Section):
             sec = id_or_sec
         else:
